@@ -822,6 +822,37 @@ class CallMixin:
         frame = self.cm_frame(s2, recv)
         return self.m_dict_update(s2, frame, args)
 
+    def m_chainmap_setdefault(self, st, recv, args):
+        # MutableMapping.setdefault: the existing binding found through the whole chain, else bind in maps[0]
+        key = args.pos[0]
+        default = args.pos[1] if len(args.pos) > 1 else NONE_SV
+        kb = self.box(st, key)
+        has, val = self.cm_lookup_terms(st, recv, kb)
+        res = []
+        for s2, flag in self.split(st, has):
+            if flag:
+                res.append(('ok', s2, self.unbox(s2, val, self.scope_key_tag(key))))
+            else:
+                s2 = s2.fork()
+                self.dict_store(s2, self.cm_frame(s2, recv), key, default)
+                res.append(('ok', s2, default))
+        return res
+
+    def m_dict_setdefault(self, st, recv, args):
+        key = args.pos[0]
+        default = args.pos[1] if len(args.pos) > 1 else NONE_SV
+        kb = self.box(st, key)
+        vals, has = self.dict_rows(st, recv)
+        res = []
+        for s2, flag in self.split(st, has[kb]):
+            if flag:
+                res.append(('ok', s2, sv_ref(vals[kb])))
+            else:
+                s2 = s2.fork()
+                self.dict_store(s2, recv, key, default)
+                res.append(('ok', s2, default))
+        return res
+
     def m_chainmap_get(self, st, recv, args):
         kb = self.box(st, args.pos[0])
         has, val = self.cm_lookup_terms(st, recv, kb)
